@@ -132,16 +132,17 @@ def observe(arg):
     r = build_report(rep, k)
     I = Intern()
     ev = {"rep": rep, "orig": project_report(r, I), "doc": EMPTY, "back": EMPTY, "pretty_valid": False, "compact_valid": False, "same_parse": False, "rewrite_same": False, "guard": ["none", "none"]}
-    pretty = ReportWriter(r).to_json()
-    compact = ReportWriter(r, pretty_print=False).to_json()
+    wp, wc = ReportWriter(r), ReportWriter(r, pretty_print=False)
+    pretty, compact = wp.to_json(), wc.to_json()
+    again_p, again_c = wp.to_json(), wc.to_json()   # a writer asked twice writes the same document twice
     try:
         dp = json.loads(pretty)
-        ev["pretty_valid"] = True
+        ev["pretty_valid"] = again_p == pretty
     except ValueError:
         dp = None
     try:
         dc = json.loads(compact)
-        ev["compact_valid"] = True
+        ev["compact_valid"] = again_c == compact
     except ValueError:
         dc = None
     if dp is None or dc is None:
